@@ -711,3 +711,16 @@ package interpreter
 //@   opt index-fn 1
 //@   ensures[C05.opcodeNumEqualVerify_err] (= (= err nil) (and (>= (old (len (. t dstack stk))) 2) (old (spec.top_ok t 0)) (old (spec.top_ok t 1)) (= (old (spec.top_num t 0)) (old (spec.top_num t 1)))))
 //@   ensures[C05.opcodeNumEqualVerify] (=> (= err nil) (and (= (len (. t dstack stk)) (- (old (len (. t dstack stk))) 2)) (forall ((k Int)) (=> (and (<= 0 k) (< k (len (. t dstack stk)))) (= (at (. t dstack stk) k) (old (at (. t dstack stk) k)))))))
+// ---- C05 (continued): the dispatcher. Opcodes in a non-executing branch have no effect on the stacks or the condition
+// stack unless they are conditionals; the disabled opcodes OP_2MUL / OP_2DIV always fail before Genesis and, after it,
+// whenever they would be executed ----
+//@ func interpreter.(*ParsedOpcode).IsConditional
+//@   pure
+//@   ensures[C05.is_conditional] (= result (and (<= 99 (. o op val)) (<= (. o op val) 104)))
+//@ func interpreter.(*ParsedOpcode).IsDisabled
+//@   pure
+//@   ensures[C05.is_disabled] (= result (or (= (. o op val) 141) (= (. o op val) 142)))
+//@ func interpreter.(*thread).executeOpcode
+//@   bytes array
+//@   ensures[C05.exec_skipped_no_effect] (=> (and (= err nil) (not (old (spec.branch_exec t))) (not (and (<= 99 (. pop op val)) (<= (. pop op val) 104)))) (and (= (. t dstack stk) (old (. t dstack stk))) (= (. t astack stk) (old (. t astack stk))) (= (. t condStack) (old (. t condStack)))))
+//@   ensures[C05.exec_disabled] (=> (and (or (= (. pop op val) 141) (= (. pop op val) 142)) (or (not (. t afterGenesis)) (old (spec.should_exec t (. pop op val))))) (distinct err nil))
